@@ -99,6 +99,9 @@ type LSpec struct {
 	// into one file; no well-formed merge exists without renaming, so a refusal (exit 1) is as
 	// acceptable as a well-formed file — a successful run with duplicate declarations is not.
 	EqualNames bool `json:"equal_names,omitempty"`
+	// Cgo: declaring file (dir/file) → true: the file imports "C" (the go command hands out a
+	// preprocessed copy of it).
+	Cgo map[string]bool `json:"cgo,omitempty"`
 	// LineDirectives: declaring file (dir/file) → file name of a `//line` directive placed above
 	// its declarations (the file was produced from a template elsewhere); positions reported
 	// through the directive must not move the output.
@@ -269,6 +272,9 @@ func (s *LSpec) render() map[string]string {
 			fmt.Fprintf(&b, "//go:build %s\n\n", fc)
 		}
 		fmt.Fprintf(&b, "package %s\n\n", s.PkgNames[dir])
+		if s.Cgo[key] {
+			b.WriteString("// #include <stdlib.h>\nimport \"C\"\n\n")
+		}
 		if s.Common {
 			fmt.Fprintf(&b, "import %q\n\n", importPath("commontypes"))
 		}
@@ -967,6 +973,19 @@ func MergeSpecs() []*LSpec {
 		s.Convs = []LConv{
 			{Dir: "svc/conv", File: "conv.go", Kind: "interface", Name: "Converter", Version: 1, Format: format, OutFile: "@cwd/gen/gen.go"},
 			{Dir: "api/conv", File: "api.go", Kind: "interface", Name: "Converter", Version: 1, Format: format, OutFile: "@cwd/gen/gen.go"},
+		}
+		out = append(out, s)
+	}
+	for _, top := range []bool{false, true} {
+		// cgo declaring files (with and without a //line directive on their first line)
+		s := &LSpec{UserPkgs: map[string]string{}, PkgNames: map[string]string{"svc/conv": "conv", "a": "a"}}
+		s.Convs = []LConv{
+			{Dir: "svc/conv", File: "conv.go", Kind: "interface", Name: "Cg", Version: 1},
+			{Dir: "a", File: "vars.go", Kind: "variables", Name: "Ch", Version: 1},
+		}
+		s.Cgo = map[string]bool{"svc/conv/conv.go": true, "a/vars.go": true}
+		if top {
+			s.LineDirectives = map[string]string{"svc/conv/conv.go": "^tmpl/conv.go.tmpl"}
 		}
 		out = append(out, s)
 	}
